@@ -31,7 +31,7 @@ ASSUMPTIONS = [
     "receivers after the aborting receiver of the same event may or may not see that event (unspecified); never twice",
     "an abort raised by an observer/handler while an evaluator STEP runs is outside the quantifier (evaluator steps: evaluator-raised aborts only)",
 ]
-BOUNDS = {"quick": "deviation bound 2 over 6 plan shapes x max_functions variants", "thorough": "deviation bound 3"}
+BOUNDS = {"quick": "deviation bound 2 over 7 plan shapes x max_functions variants", "thorough": "deviation bound 3"}
 
 POINTS = {"A": [0.5, -0.25], "B": [-1.0, 1.0], "C": [2.0, 0.5]}
 
@@ -72,6 +72,12 @@ class World:
         self.open_eval: int | None = None
         self.phase = 0  # which outer plan is running (shape nested-reused)
         self.event_phase: dict[int, int] = {}
+        self.step_owner: dict[Any, Any] = {}  # step id -> the plan it belongs to
+        self.unlatched_at_finish: list[str] = []  # FINISHED_x_STEP delivered after an abort while the plan was not yet aborted
+
+    def own(self, plan: Any, step: Any) -> Any:
+        self.step_owner[step] = plan
+        return step
 
     def ordinal(self, event: Any) -> int:
         key = id(event)
@@ -89,6 +95,12 @@ class World:
         self.deliveries.append((receiver, k))
         if event.event_type == EventType.START_EVALUATION:
             self.open_eval = k
+        if (self.abort_at is not None and event.event_type in (EventType.FINISHED_OPTIMIZER_STEP, EventType.FINISHED_EVALUATOR_STEP)
+                and self.abort_at[0] == "delivery" and self.events[self.abort_at[1][1]].source == event.source
+                and event.source in self.step_owner and not self.step_owner[event.source].aborted):
+            # the user aborted at an earlier event of this very step: while its last event is delivered the plan is
+            # already marked (a receiver that looks at plan.aborted, or starts a follow-up step, sees the abort)
+            self.unlatched_at_finish.append(receiver)
         if may_abort and self.abort_at is None:
             if self.chooser.choose(2, f"deliver:{receiver}:{event.event_type.name}") == 1:
                 self.abort_at = ("delivery", (receiver, k))
@@ -149,7 +161,7 @@ def run_shape(shape: str, variant: dict[str, Any], chooser: Chooser) -> dict[str
         if shape == "optimizer":
             plan = Plan(context)
             add_recorder(plan, world, "h-plan")
-            step = plan.add_step("optimizer")
+            step = world.own(plan, plan.add_step("optimizer"))
             out["chain"] = {str(step): ["h-plan", "observer"]}
             out["codes"].append(plan.run_step(step, config=base_config(script, max_functions=max_functions)))
             out["plans"] = [plan]
@@ -157,7 +169,7 @@ def run_shape(shape: str, variant: dict[str, Any], chooser: Chooser) -> dict[str
         elif shape == "evaluator":
             plan = Plan(context)
             add_recorder(plan, world, "h-plan", allow_abort=False)
-            step = plan.add_step("evaluator")
+            step = world.own(plan, plan.add_step("evaluator"))
             out["chain"] = {str(step): ["h-plan", "observer"]}
             out["codes"].append(plan.run_step(step, config=base_config(script), variables=np.array([POINTS["A"], POINTS["B"]])))
             out["plans"] = [plan]
@@ -165,17 +177,21 @@ def run_shape(shape: str, variant: dict[str, Any], chooser: Chooser) -> dict[str
         elif shape == "sequential":
             plan = Plan(context)
             add_recorder(plan, world, "h-plan")
-            step1, step2 = plan.add_step("optimizer"), plan.add_step("optimizer")
+            step1, step2 = world.own(plan, plan.add_step("optimizer")), world.own(plan, plan.add_step("optimizer"))
             out["chain"] = {str(step1): ["h-plan", "observer"], str(step2): ["h-plan", "observer"]}
             out["plans"] = [plan]
             out["retry"] = (plan, step2, base_config(script[:1]))
             out["codes"].append(plan.run_step(step1, config=base_config(script[:2], max_functions=max_functions)))
             if world.abort_at is None:
                 out["codes"].append(plan.run_step(step2, config=base_config(script[1:])))
-        elif shape == "nested":
-            inner = Plan(context)
+        elif shape in ("nested", "nested-own-context"):
+            # (own context: the nested plan was built on a different OptimizerContext than the outer plan; the observers
+            # live on the outer plan's context and still see every event)
+            from ropt.plan import OptimizerContext
+
+            inner = Plan(context if shape == "nested" else OptimizerContext(evaluator=evaluator, plugin_manager=manager))
             add_recorder(inner, world, "h-inner")
-            inner_step = inner.add_step("optimizer")
+            inner_step = world.own(inner, inner.add_step("optimizer"))
             inner_tracker = inner.add_handler("tracker", sources={inner_step})
             inner_script = [[[0.75], True, False], [[-0.5], True, True]]
 
@@ -186,7 +202,7 @@ def run_shape(shape: str, variant: dict[str, Any], chooser: Chooser) -> dict[str
             inner.add_function(inner_fn)
             outer = Plan(context)
             add_recorder(outer, world, "h-outer")
-            outer_step = outer.add_step("optimizer")
+            outer_step = world.own(outer, outer.add_step("optimizer"))
             out["chain"] = {str(outer_step): ["h-outer", "observer"], str(inner_step): ["h-inner", "h-outer", "observer"]}
             out["plans"] = [outer, inner]
             out["retry"] = (outer, outer_step, base_config([[[0.5], True, False]], mask=[True, False]))
@@ -197,7 +213,7 @@ def run_shape(shape: str, variant: dict[str, Any], chooser: Chooser) -> dict[str
             # the SAME inner plan object is first used by outer plan A and then by a different outer plan B
             inner = Plan(context)
             add_recorder(inner, world, "h-inner")
-            inner_step = inner.add_step("optimizer")
+            inner_step = world.own(inner, inner.add_step("optimizer"))
             inner_tracker = inner.add_handler("tracker", sources={inner_step})
             inner_script = [[[0.75], True, False]]
 
@@ -209,7 +225,7 @@ def run_shape(shape: str, variant: dict[str, Any], chooser: Chooser) -> dict[str
             outer_a, outer_b = Plan(context), Plan(context)
             add_recorder(outer_a, world, "h-outer-a")
             add_recorder(outer_b, world, "h-outer-b")
-            step_a, step_b = outer_a.add_step("optimizer"), outer_b.add_step("optimizer")
+            step_a, step_b = world.own(outer_a, outer_a.add_step("optimizer")), world.own(outer_b, outer_b.add_step("optimizer"))
             out["chain"] = {str(step_a): ["h-outer-a", "observer"], str(step_b): ["h-outer-b", "observer"],
                             (str(inner_step), 0): ["h-inner", "h-outer-a", "observer"], (str(inner_step), 1): ["h-inner", "h-outer-b", "observer"]}
             out["plans"] = [outer_a]
@@ -326,7 +342,7 @@ def judge_run(shape: str, variant: dict[str, Any], choices: list[int], run: dict
             loc = {EventType.START_OPTIMIZER_STEP: "step-start-event", EventType.FINISHED_OPTIMIZER_STEP: "step-finished-event",
                    EventType.START_EVALUATOR_STEP: "step-start-event", EventType.FINISHED_EVALUATOR_STEP: "step-finished-event",
                    EventType.START_EVALUATION: "evaluation-start-event", EventType.FINISHED_EVALUATION: "evaluation-finished-event"}[etype]
-    nested_shape = shape in ("nested", "nested-reused")
+    nested_shape = shape in ("nested", "nested-reused", "nested-own-context")
     inner_chain = run["chain"].get(abort_source) or run["chain"].get((abort_source, 0)) or [""]
     inner_abort = nested_shape and abort_source is not None and inner_chain[0] == "h-inner"
     if nested_shape and aborted:
@@ -352,6 +368,8 @@ def judge_run(shape: str, variant: dict[str, Any], choices: list[int], run: dict
             j.fail(f"further-step-not-refused:{shape}:{where}", refused=run["refused"], **detail)
     elif any(run["aborted_flags"]):
         j.fail("plan-aborted-without-abort", **detail)
+    if world.unlatched_at_finish:
+        j.fail(f"plan-not-yet-marked-aborted-while-the-step-finished-event-is-delivered:{shape}", receivers=world.unlatched_at_finish, **detail)
     # ---- delivery discipline
     per_event: dict[int, list[str]] = {}
     for receiver, k in world.deliveries[: run["n_deliveries"]]:
@@ -418,7 +436,7 @@ def judge_run(shape: str, variant: dict[str, Any], choices: list[int], run: dict
     return j
 
 
-SHAPES = ["optimizer", "evaluator", "sequential", "nested", "nested-reused", "basic"]
+SHAPES = ["optimizer", "evaluator", "sequential", "nested", "nested-reused", "nested-own-context", "basic"]
 
 
 def shards(tier: str, seed: int) -> list[dict[str, Any]]:
